@@ -1,3 +1,4 @@
+//go:debug asynctimerchan=0
 package ptracker
 
 import (
@@ -9,26 +10,33 @@ import (
 	"github.com/metal-toolbox/audito-maldito/internal/verif/mc"
 )
 
+var exitCode = 2
+
 func TestMain(m *testing.M) {
+	if os.Getenv("VERIF_PROP") == "" {
+		os.Exit(m.Run())
+	}
+	m.Run()
+	os.Exit(exitCode)
+}
+
+func TestCheck(t *testing.T) {
 	prop := os.Getenv("VERIF_PROP")
 	if prop == "" {
-		os.Exit(m.Run())
+		t.Skip()
 	}
 	if f := os.Getenv("VERIF_CPUPROFILE"); f != "" {
 		fh, _ := os.Create(f)
 		_ = pprof.StartCPUProfile(fh)
-		exit := osExit
-		osExit = func(c int) { pprof.StopCPUProfile(); fh.Close(); exit(c) }
+		defer func() { pprof.StopCPUProfile(); fh.Close() }()
 	}
 	run := mc.Start(prop)
 	switch prop {
 	case "C01", "C02", "C04", "C09", "C16":
-		osExit(runBFS(run))
+		exitCode = runBFS(run)
 	case "C03":
-		osExit(runConc(run))
+		exitCode = runConc(run)
+	default:
+		fmt.Println("unknown property", prop)
 	}
-	fmt.Println("unknown property", prop)
-	os.Exit(2)
 }
-
-var osExit = os.Exit
